@@ -311,7 +311,14 @@ def _one_case(rng, cls=None, big=False):
         dgms = [[], _random_bars(rng, 2)] if rng.random() < 0.5 else [_random_bars(rng, 2), []]
         h = 0 if not dgms[0] else 1
     elif cls == "repr":
-        rep = rng.choice(["list", "tuple", "int"])
+        rep = rng.choice(["list", "tuple", "int", "float32", "float32"])
+        if rep == "float32":
+            # a binary32 diagram at a large offset: end points on a 1/64 .. 1/8 grid near 2^17 (exactly representable), so
+            # that mid-points and intersections are NOT representable in binary32
+            off = rng.choice([131072.0, 65536.0, -131072.0, 262144.0])
+            q = rng.choice([64.0, 32.0, 16.0]) if abs(off) <= 131072.0 else 32.0
+            bars = [[off + math.floor(b * 8) / q, off + (math.floor(b * 8) + max(1, math.ceil((d - b) * 8))) / q] for b, d in bars]
+            dgms = [bars]
         if rep == "int":
             bars = [[float(math.floor(b)), float(math.floor(b) + max(1, math.ceil(d - b)))] for b, d in bars]
             dgms = [bars]
@@ -508,6 +515,10 @@ def corpus():
         {"cls": "suite", "dgms": [[[0.0, 3.0], [1.0, 4.0]], [[1.0, 4.0]]], "hom_deg": 0, "repr": "float"},
         {"cls": "suite", "dgms": [[[0.5, 7.0], [3.0, 5.0], [4.125, 6.5]], [[1.0, 4.0]]], "hom_deg": 1, "repr": "float"},
         {"cls": "witness", "dgms": [[[0.0, "inf"]]], "hom_deg": 0, "repr": "float"},
+        # fixed finding C03-float32-midpoints (3827d1a): critical points of a float32 diagram were rounded to binary32
+        {"cls": "witness", "dgms": [[[131072.25, 131072.3125], [131072.34375, 131072.71875], [131072.625, 131072.6875],
+                                     [131072.28125, 131072.46875], [131072.375, 131072.75], [131072.421875, 131072.640625]]],
+         "hom_deg": 0, "repr": "float32"},
     ]
     d = core.VERIF / "corpus" / PID
     if d.is_dir():
@@ -561,6 +572,11 @@ def _container(rows, rep):
         return tuple(tuple(r) for r in rows)
     if rep == "int" and rows and all(float(v).is_integer() for r in rows for v in r):
         return np.array(rows, dtype=np.int64).reshape(-1, 2)
+    if rep == "float32" and rows:
+        # only when every coordinate is exactly representable in binary32 (the diagram is then the same diagram)
+        a32 = np.array(rows, dtype=np.float32).reshape(-1, 2)
+        if np.array_equal(a32.astype(float), np.array(rows, dtype=float).reshape(-1, 2)):
+            return a32
     return np.array(rows, dtype=float).reshape(-1, 2)
 
 
